@@ -307,8 +307,21 @@ def tm_dim(interp: Any, args: List[Any], kwargs: Dict[str, Any]) -> Any:
     return args[0].shape.length(interp.ctx)
 
 
+def _log_conversion(interp: Any, src: Any, dst: Any) -> None:
+    """dtype conversions are value-preserving in the real-number model (A1); they are LOGGED so that
+    contracts which depend on precision can state that no narrowing conversion happens"""
+    interp.ctx.__dict__.setdefault("dtype_conversions", []).append((src, dst))
+
+
+def narrowing(src: Any, dst: Any) -> Any:
+    """z3 condition: converting src -> dst loses range or precision (floating dtypes)"""
+    f64, f32, bf16, f16 = (DTYPES[n] for n in ("float64", "float32", "bfloat16", "float16"))
+    return z3.Or(z3.And(src == f64, dst != f64), z3.And(src == f32, z3.Or(dst == bf16, dst == f16)), z3.And(src == bf16, dst == f16), z3.And(src == f16, dst == bf16))
+
+
 def tm_float(interp: Any, args: List[Any], kwargs: Dict[str, Any]) -> Any:
     t = args[0]
+    _log_conversion(interp, t.dtype, DTYPES["float32"])
     return SymTensor(t.shape, DTYPES["float32"], t.val, LinNode([t.node], [z3.RealVal(1)], [None]))
 
 
@@ -317,6 +330,7 @@ def tm_to(interp: Any, args: List[Any], kwargs: Dict[str, Any]) -> Any:
     dt = args[1] if len(args) > 1 else kwargs.get("dtype")
     if not (z3.is_expr(dt) and dt.sort() == DT):
         raise OutOfReach("Tensor.to(non-dtype)")
+    _log_conversion(interp, t.dtype, dt)
     return SymTensor(t.shape, dt, t.val, LinNode([t.node], [z3.RealVal(1)], [None]))
 
 
@@ -679,6 +693,19 @@ def t_ones(interp: Any, args: List[Any], kwargs: Dict[str, Any]) -> Any:
     return t
 
 
+def t_like(fill: str) -> Callable[..., Any]:
+    """ASSUMED torch.zeros_like / ones_like: a fresh tensor of the argument's shape and dtype (requires_grad False)"""
+
+    def f(interp: Any, args: List[Any], kwargs: Dict[str, Any]) -> Any:
+        src = args[0]
+        dt = kwargs["dtype"] if kwargs.get("dtype") is not None else src.dtype
+        t = SymTensor(src.shape, dt, LinComb.const(1) if fill == "ones" else LinComb.zero() if hasattr(LinComb, "zero") else LinComb.const(0), None)
+        t.storage.__dict__["fill"] = fill
+        return t
+
+    return f
+
+
 def F_pad(interp: Any, args: List[Any], kwargs: Dict[str, Any]) -> Any:
     ctx = interp.ctx
     x, pad, mode, value = normalise("pad", [("input", REQ), ("pad", REQ), ("mode", "constant"), ("value", None)], args, kwargs)
@@ -884,6 +911,8 @@ def externals(interp: Any, name: str) -> Optional[ModuleVal]:
             "broadcast_shapes": B("torch.broadcast_shapes", t_broadcast_shapes),
             "tensor": B("torch.tensor", t_tensor),
             "ones": B("torch.ones", t_ones),
+            "zeros_like": B("torch.zeros_like", t_like("zeros")),
+            "ones_like": B("torch.ones_like", t_like("ones")),
             "isclose": B("torch.isclose", t_isclose),
             "no_grad": B("torch.no_grad", lambda it, a, k: NoGrad()),
             "dtype": TypeTok("dtype"),
